@@ -57,7 +57,16 @@ NARY_MUL = {
     "true_divide": (lambda f, a, b: f.true_divide(a, b), -1),
 }
 del NARY_KEEP["clip_hi"]
-COMMUTATIVE = {k: NARY_KEEP[k] for k in ("add", "maximum", "minimum", "fmax")}
+# close relatives: other ways of putting the values of one operand next to, or into, those of another, and the other
+# degree-1 binary functions
+NARY_KEEP.update({
+    "insert": lambda f, a, b: f.insert(a, 1, f.ravel(b) if np.ndim(_raw(b)) else b), "insert_kw": lambda f, a, b: f.insert(a, [0, 1], values=f.ravel(b)[:2] if np.ndim(_raw(b)) else b),
+    "vstack": lambda f, a, b: f.vstack([a, b]), "column_stack": lambda f, a, b: f.column_stack([a, b]), "dstack": lambda f, a, b: f.dstack([a, b]),
+    "fmin": lambda f, a, b: f.fmin(a, b), "hypot": lambda f, a, b: f.hypot(a, b), "copysign": lambda f, a, b: f.copysign(a, b),
+    "fmod": lambda f, a, b: f.fmod(a, b), "mod": lambda f, a, b: f.mod(a, b), "remainder": lambda f, a, b: f.remainder(a, b),
+})
+STACKING = ("concatenate", "stack", "hstack", "append", "vstack", "column_stack", "dstack")
+COMMUTATIVE = {k: NARY_KEEP[k] for k in ("add", "maximum", "minimum", "fmax", "fmin", "hypot")}
 COMMUTATIVE["multiply"] = NARY_MUL["multiply"][0]
 
 
@@ -88,12 +97,16 @@ def cases(thorough):
                     yield {"block": "unary", "fn": name, "dt": dt, "shape": sh, "u": u}
     for name in list(NARY_KEEP) + list(NARY_PRED) + list(NARY_MUL):
         for kind in SECOND_KIND:
+            if kind == "Quantity_first" and name in ("fmod", "mod", "remainder"):
+                # numpy gives the call to the first operand: pint answers these three itself (a Quantity wrapped around whatever it
+                # was given), without ever handing the call to osyris
+                continue
             for (u1, u2) in UNIT_SETS:
                 for dt in (dts if thorough else ["f8", "f4", "i8"]):
                     for sh in ["3", "2x3"]:
                         yield {"block": "nary", "fn": name, "kind": kind, "u1": u1, "u2": u2, "dt": dt, "shape": sh}
                     # a 0-d Array as the operand that carries the unit, against three values
-                    if dt == "f8" and not name.startswith(("concatenate", "stack", "hstack", "append", "where")):
+                    if dt == "f8" and not name.startswith(STACKING + ("where", "insert")):
                         yield {"block": "nary", "fn": name, "kind": kind, "u1": u1, "u2": u2, "dt": dt, "shape": "3", "a0d": True}
     # sequences of calls on persistent Arrays: conversions, out= targets and in-place updates interleaved
     import itertools
@@ -111,7 +124,8 @@ def cases(thorough):
                 continue
             yield {"block": "seq", "u1": u1, "u2": u2, "steps": list(seq), "dt": "f8", "shape": "3"}
     # out= forms and where/clip with unit-carrying bounds and boolean Array conditions
-    for name in ("add_out", "multiply_out", "sqrt_out", "negative_out", "where_Array_cond", "clip_Arrays", "clip_numbers", "clip_kw"):
+    for name in ("add_out", "multiply_out", "sqrt_out", "negative_out", "where_Array_cond", "clip_Arrays", "clip_numbers", "clip_kw",
+                 "clip_kw_Arrays", "insert_kw_values", "sum_kw_initial", "diff_kw_prepend", "full_like_kw", "average_kw_weights"):
         for (u1, u2) in UNIT_SETS:
             for dt in ("f8", "f4"):
                 for sh in ["3", "2x3"]:
@@ -259,8 +273,15 @@ def run_case(acc, idx, c):
                     return "skipped", False
             else:
                 with np.errstate(all="ignore"):
-                    want = fn(np, X, Y) if not (name.startswith(("concatenate", "stack", "hstack", "append")) and np.ndim(Y) == 0 and kind == "number") else None
-            if want is None and name.startswith(("concatenate", "stack", "hstack")) and kind == "number":
+                    want = fn(np, X, Y) if not (name.startswith(STACKING) and np.ndim(Y) == 0 and kind == "number") else None
+                    if name.startswith("insert") and want is not None and first_is_array and np.issubdtype(dt, np.integer):
+                        # numpy casts the inserted values to the element type of the array they go into, in that array's unit
+                        want = np.asarray(fn(np, v1, np.asarray(P2, dtype=np.float64) / s1), dtype=np.float64) * s1
+                    if name in ("fmod", "mod", "remainder") and want is not None:
+                        q = np.asarray(X, dtype=np.float64) / np.asarray(Y, dtype=np.float64)
+                        if np.any(np.abs(q - np.round(q)) < 1e-6):
+                            want = None  # the remainder of an exact multiple hinges on the rounding of the conversion
+            if want is None and name.startswith(tuple(x for x in STACKING if x != "append")) and kind == "number":
                 return "skipped-scalar-sequence", False
             out = finish(acc, idx, c, lambda: fn(np, x, y), want, d1, tol, carries and not compatible, may_raise or (carries and c["u1"] != c["u2"]),
                          (dt,), f"same-unit:{name.split('_')[0]}:{label_kind}")
@@ -343,7 +364,44 @@ def run_case(acc, idx, c):
     if name == "clip_kw":
         want = np.clip(v1.astype(float), 2, 4) * s1
         return finish(acc, idx, c, lambda: np.clip(a, a_min=2, a_max=4), want, d1, tol, False, True, (dt,), "same-unit:clip:kw"), c["u1"] != "dimensionless"
-    raise KeyError(name)
+    # operands handed over by keyword are operands: converted or refused like positional ones
+    kinds = [("Array", lambda v, u: A_(np.asarray(v, dtype=np.float64), unit=u)), ("Quantity", lambda v, u: np.asarray(v, dtype=np.float64) * osyris.units(u))]
+    outs = []
+    for kname, mk in kinds:
+        if name == "clip_kw_Arrays":
+            lo, hi = mk(2.0, c["u2"]), mk(4.0, c["u2"])
+            want = np.clip(P1, 2 * s2, 4 * s2) if compatible else None
+            outs.append(finish(acc, idx, c, lambda: np.clip(a, a_min=lo, a_max=hi), want, d1, tol, not compatible, False, (dt,), f"same-unit:clip:kw-{kname}"))
+        elif name == "insert_kw_values":
+            vals = mk([7.0, 9.0], c["u2"])
+            want = np.insert(P1.ravel(), [0, 1], np.array([7.0, 9.0]) * s2) if compatible else None
+            if want is not None and np.issubdtype(dt, np.integer):
+                want = None
+            outs.append(finish(acc, idx, c, lambda: np.insert(a, [0, 1], values=vals), want, d1, tol, not compatible, False, (dt,), f"same-unit:insert:kw-{kname}"))
+        elif name == "sum_kw_initial":
+            ini = mk(5.0, c["u2"])
+            want = np.sum(P1) + 5.0 * s2 if compatible else None
+            outs.append(finish(acc, idx, c, lambda: np.sum(a, initial=ini), want, d1, tol, not compatible, False, (dt,), f"keep:sum:kw-initial-{kname}"))
+        elif name == "diff_kw_prepend":
+            if len(shape) != 1:
+                return "skipped", False
+            pre = mk([5.0], c["u2"])
+            want = np.diff(P1, prepend=np.array([5.0]) * s2) if compatible else None
+            outs.append(finish(acc, idx, c, lambda: np.diff(a, prepend=pre), want, d1, tol, not compatible, False, (dt,), f"keep:diff:kw-prepend-{kname}"))
+        elif name == "full_like_kw":
+            fv = mk(5.0, c["u2"])
+            want = np.full(shape, 5.0 * s2) if compatible else None
+            outs.append(finish(acc, idx, c, lambda: np.full_like(a, fill_value=fv), want, d1, tol, not compatible, False, (dt,), f"keep:full_like:kw-{kname}"))
+        elif name == "average_kw_weights":
+            # weights carry a unit of their own, which cancels: any unit is fine
+            if len(shape) != 1:
+                return "skipped", False
+            w = mk(np.arange(1.0, shape[0] + 1.0), c["u2"])
+            want = np.average(P1, weights=np.arange(1.0, shape[0] + 1.0))
+            outs.append(finish(acc, idx, c, lambda: np.average(a, weights=w), want, d1, tol, False, False, (dt,), f"keep:average:kw-weights-{kname}"))
+        else:
+            raise KeyError(name)
+    return ("ok" if all(o == "ok" for o in outs) else outs[0]), True
 
 
 def run_sequence(acc, idx, c):
